@@ -174,7 +174,20 @@ func resolveClient(p *Prog) *clientModel {
 			}
 		}
 	}
-	need(m.Acquire, "acquireClientTransaction")
+	if m.Acquire == nil {
+		// the acquisition helper may have been inlined by hand: Start then takes the object from the pool itself
+		direct := false
+		if m.Start != nil {
+			eachInstr(m.Start, func(b *ssa.BasicBlock, i int, in ssa.Instruction) {
+				if v, ok := in.(ssa.Value); ok && m.isAcquire(v) {
+					direct = true
+				}
+			})
+		}
+		if !direct {
+			miss("acquireClientTransaction (or a sync.Pool Get asserted to *clientTransaction in Start)")
+		}
+	}
 	need(m.Put, "putClientTransaction")
 	m.Waiter = p.Named("callbackWaitHandler")
 	if m.Waiter == nil {
@@ -222,4 +235,25 @@ func valueIsLoadOfField(v ssa.Value, fv *types.Var) bool {
 func isChanRecv(in ssa.Instruction) bool {
 	u, ok := in.(*ssa.UnOp)
 	return ok && u.Op == token.ARROW
+}
+
+// isAcquire: v is a transaction fresh from the pool - the result of the acquisition helper, or of
+// (*sync.Pool).Get asserted to *clientTransaction.
+func (m *clientModel) isAcquire(v ssa.Value) bool {
+	switch x := v.(type) {
+	case *ssa.Call:
+		return m.Acquire != nil && callsFn(x, m.Acquire)
+	case *ssa.TypeAssert:
+		pt, ok := x.AssertedType.(*types.Pointer)
+		if !ok || pt.Elem() != types.Type(m.TX) {
+			return false
+		}
+		c, ok := x.X.(*ssa.Call)
+		if !ok {
+			return false
+		}
+		sc := c.Call.StaticCallee()
+		return sc != nil && sc.Name() == "Get" && sc.Pkg != nil && sc.Pkg.Pkg.Path() == "sync"
+	}
+	return false
 }
